@@ -209,8 +209,11 @@ QArgs(g) == LET js == { j \in DOMAIN g.args : g.args[j].k = "q" }
             IN Pick(1)
 CArgs(g) == LET RECURSIVE Pick(_)
                 Pick(j) == IF j > Len(g.args) THEN <<>>
-                           ELSE (IF g.args[j].k = "num" THEN <<g.args[j].n>> ELSE <<>>) \o Pick(j + 1)
+                           \* (a non-integral value is outside the exact family: it travels as -999, the value the
+                           \*  harness records for it, and the state of such a subcircuit is not computed - HasRealArg)
+                           ELSE (IF g.args[j].k = "num" THEN <<IF g.args[j].i THEN g.args[j].n ELSE -999>> ELSE <<>>) \o Pick(j + 1)
             IN Pick(1)
+HasRealArg(gs) == \E j \in DOMAIN gs : \E a \in DOMAIN gs[j].args : gs[j].args[a].k = "num" /\ ~gs[j].args[a].i
 
 AllEven(v) == \A x \in DOMAIN v : v[x][1] % 2 = 0 /\ v[x][2] % 2 = 0
 RECURSIVE Reduce(_)
